@@ -181,6 +181,24 @@ def rule_iter_python(ctx, m):
             ctx.check(ok, 'R-ITER', mod.path, fn, 'pair order', 'the serial enumerator must call distance(s[row], s[col])', inner.line)
             # idx advances once per pair, starts at 0
             _counter_ok(ctx, mod.path, fn, f.body, outer_stmt, inner, 'dists')
+        else:
+            # the index pair is returned as (row indices, column indices): callers unpack / zip it in that order and index the square matrix with it
+            apps = {}
+            for s_ in inner.body:
+                if s_.k == 'expr' and s_.value[0] == 'call' and s_.value[1][0] == 'attr' and s_.value[1][2] == 'append' and len(s_.value[2]) == 1:
+                    apps[fmt(s_.value[1][1])] = s_.value[2][0]
+            rowl = [k for k, v in apps.items() if v == ('var', outer_stmt.var if outer_stmt.k == 'for' else None) or v == _loopvar(outer_stmt)]
+            coll = [k for k, v in apps.items() if v == _loopvar(inner)]
+            okp = len(rowl) == 1 and len(coll) == 1
+            bad = []
+            if okp:
+                for s_ in walk_stmts(f.body):
+                    if s_.k == 'assign' and s_.target == ('var', 'idxs') and s_.value[0] == 'tuple' and len(s_.value[1]) == 2:
+                        names = [[x[1] for x in walk_expr(e) if x[0] == 'var' and x[1] in (rowl[0], coll[0])] for e in s_.value[1]]
+                        if names != [[rowl[0]], [coll[0]]]:
+                            bad.append(fmt(s_.value)[:80])
+            ctx.check(okp and not bad, 'R-ITER', mod.path, fn, 'index pair order',
+                      'the enumerator must return (row indices, column indices) -- the order in which np.triu_indices returns them and every caller consumes them; found %s' % (bad or apps), inner.line)
     # length
     f = mod.funcs.get('_distance_matrix_length')
     _length_python(ctx, mod, f)
@@ -691,5 +709,23 @@ def rule_mp_order(ctx, m):
                                   '(per-series psi)' % (fmt(elt)[:60], fmt(tgt)), s.line)
                     else:
                         ctx.violation('R-ITER', mod.path, 'distance_matrix', 'pool work list', 'unrecognised work list %s' % fmt(c)[:120], s.line)
+    # the worker functions unpack the work item (series of the row, series of the column, options) in that order
+    workers = 0
+    for q in ('_distance_with_params', '_distance_with_params_ndim', '_distance_c_with_params', '_distance_c_with_params_ndim'):
+        g = mod.funcs.get(q)
+        if g is None:
+            raise AnalysisError('anchor vanished: dtw.%s' % q)
+        workers += 1
+        prm = g.args[0]
+        rets = [s_ for s_ in g.body if s_.k == 'return' and s_.value is not None and s_.value[0] == 'call']
+        ok = len(rets) == 1
+        if ok:
+            c = rets[0].value
+            ok = tuple(c[2][:2]) == (('idx', ('var', prm), ('num', 0)), ('idx', ('var', prm), ('num', 1))) and \
+                any(k is None and v == ('idx', ('var', prm), ('num', 2)) for k, v in c[3])
+        ctx.check(ok, 'R-ITER', mod.path, q, 'work item order',
+                  'the worker must compute distance(item[0], item[1], **item[2]) -- (row series, column series, options) as the pool sites build it; swapped series change '
+                  'the result whenever the settings are not symmetric (per-series psi)', g.line)
     ctx.count('pool sites', n)
+    ctx.count('pool workers', workers)
     return n
